@@ -123,8 +123,20 @@ func (r *Run) Report() int {
 		for _, a := range vc.globalsUsed {
 			axioms["assumed global fact: "+a] = true
 		}
+		anyFailed := false
+		for _, o := range vc.sortedObls() {
+			if !o.Cover && o.Status != "discharged" {
+				anyFailed = true
+			}
+		}
 		for _, o := range vc.sortedObls() {
 			if !hasProp(o.Props, prop) {
+				continue
+			}
+			if o.Cover && anyFailed && o.Status == "vacuous" {
+				// a failed obligation is assumed afterwards, which can make later points unreachable:
+				// vacuity is only meaningful when everything before it was proved
+				covers++
 				continue
 			}
 			if o.Cover {
